@@ -27,6 +27,7 @@ func c08(c *eng.Ctx, r *eng.Report) {
 		"R8.10 every string header the encoder writes (call of encodeStringHeader) is reached only on paths that excluded the single-byte form (`len != 1` or `b[0] > 0x7f`), or has a constant size other than 1 — the decoder rejects a one-byte string below 0x80 behind a header, so a writer without the guard produces encodings that do not decode; " +
 		"R8.12 Stream.Kind() reports size 0 for a single byte below 0x80 as well as for the empty string/list, so wherever its size result is tested for zero the kind result of the same call is tested too on that path (`size == 0 && kind != Byte`) — otherwise a one-byte value is taken for an empty one; " +
 		"R8.13 no function of the package hands out or stores the address of an element of a slice field that the package also appends to (the pointer goes stale when the slice grows — list headers are written through such pointers); " +
+		"R8.14 what EncodeToBytes hands out is the caller's own: encbuf.toBytes returns a slice it allocated on every path, never (a re-slice of) a field of the pooled encbuf, which the next encoding overwrites; " +
 		"R8.11 willRead returns nil only on paths that charged the read to both budgets: the enclosing list's position (or no list is open) and the stream's remaining input limit (or the stream is unlimited). " +
 		"Not decided: round-trip equality and uniqueness of encodings for all values; the rest of the encoder."
 	r.Assume = []string{"reflect and io.Reader behave as documented"}
@@ -42,6 +43,7 @@ func c08(c *eng.Ctx, r *eng.Report) {
 	c08WillReadAccounting(c, r)
 	c08EmptyNotByte(c, r)
 	c08NoElementPointers(c, r)
+	c08FreshOutput(c, r)
 }
 
 // payloadExempt: functions that pull bytes from the input without being the
@@ -926,4 +928,44 @@ func unloadV(v ssa.Value) ssa.Value {
 		return u.X
 	}
 	return v
+}
+
+// c08FreshOutput: encbufs are pooled.
+func c08FreshOutput(c *eng.Ctx, r *eng.Report) {
+	const rule = "R8.14"
+	r.Min(rule, 1)
+	fn := c.Func(rlpPkg, "(*encbuf).toBytes")
+	if !r.Anchor(fn != nil, rule, "(*encbuf).toBytes") {
+		return
+	}
+	bad := ""
+	var fresh func(v ssa.Value, d int) bool
+	fresh = func(v ssa.Value, d int) bool {
+		if d > 5 {
+			return false
+		}
+		switch x := v.(type) {
+		case *ssa.MakeSlice:
+			return true
+		case *ssa.Slice:
+			return fresh(x.X, d+1)
+		case *ssa.Phi:
+			for _, e := range x.Edges {
+				if !fresh(e, d+1) {
+					return false
+				}
+			}
+			return len(x.Edges) > 0
+		case *ssa.Call:
+			n := eng.CallName(&x.Call)
+			return n == "builtin:append" && len(x.Call.Args) > 0 && (eng.IsNilConst(x.Call.Args[0]) || fresh(x.Call.Args[0], d+1))
+		}
+		return false
+	}
+	for _, re := range eng.Returns(fn) {
+		if v := re.Incoming(0); !fresh(v, 0) {
+			bad = c.Pos(re.Ret.Pos()) + " returns " + eng.Desc(v)
+		}
+	}
+	r.Check(bad == "", rule, "toBytes:fresh", c.Pos(fn.Pos()), "every return is a slice allocated in toBytes", "(*encbuf).toBytes at "+bad+", memory that belongs to the pooled encoder buffer: EncodeToBytes puts the buffer back into the pool, the next encoding overwrites the bytes the earlier caller still holds — an encoded value no longer decodes to what was encoded once another value has been encoded")
 }
